@@ -5,6 +5,7 @@ let props : (string * (module Frame.PROP)) list = [
   ("C13", (module C13));
   ("C15", (module C15));
   ("C18", (module C18));
+  ("C20", (module C20));
 ]
 
 let () =
